@@ -23,6 +23,7 @@ pub mod c13;
 pub mod c14;
 pub mod c16;
 pub mod c17;
+pub mod c18;
 pub mod c0405;
 pub mod msg;
 pub mod c19;
@@ -40,6 +41,7 @@ pub fn lookup(id: &str) -> Option<Box<dyn Prop>> {
         "C14" => Some(Box::new(c14::C14)),
         "C16" => Some(Box::new(c16::C16)),
         "C17" => Some(Box::new(c17::C17)),
+        "C18" => Some(Box::new(c18::C18)),
         "C19" => Some(Box::new(c19::C19)),
         "C01" => Some(Box::new(c01::C01)),
         "C02" => Some(Box::new(c02::C02)),
@@ -59,6 +61,9 @@ pub fn lookup(id: &str) -> Option<Box<dyn Prop>> {
 pub fn worker(args: &[String]) -> i32 {
     match args.first().map(|s| s.as_str()) {
         Some("crash") => c16::worker_crash(args.get(1).map(|s| s.as_str()).unwrap_or("")),
+        Some("pool") => c18::worker_pool(args.get(1).map(|s| s.as_str()).unwrap_or("quick"), args.get(2).map(|s| s.as_str()).unwrap_or("/dev/null")),
+        Some("poolverify") => c18::worker_poolverify(&args[1..]),
+        Some("firsttouch") => c18::worker_firsttouch(args.get(1).map(|s| s.as_str()).unwrap_or("hash"), args.get(2).map(|s| s.as_str()).unwrap_or("hash")),
         Some("seeded") => c14::worker_seeded(args.get(1).map(|s| s.as_str()).unwrap_or("")),
         _ => 2,
     }
